@@ -3,5 +3,5 @@
 (* under work/<ID>-<tier>/mc with NChunks READ FROM THE RUNNING CODE (lib/ps_common.py mc_phase);  *)
 (* here NChunks is the value the pinned commit allocates: maxsubs*(bufmax+borrow)+hist+loan = 6.   *)
 EXTENDS PubSub
-QV == [maxpubs |-> 1, maxsubs |-> 2, bufmax |-> 1, hist |-> 1, borrow |-> 1, loan |-> 1, overflow |-> TRUE, strategy |-> "discard"]
+QV == [maxpubs |-> 1, maxsubs |-> 2, bufmax |-> 1, hist |-> 1, borrow |-> 1, loan |-> 1, overflow |-> TRUE, strategy |-> "discard", expbuf |-> 64]
 ====
